@@ -163,11 +163,9 @@ func discharge(u *Unit, o *Obligation, cfg *solveCfg, idx int) {
 		}
 		return
 	}
-	if record(runSolver("z3-new", file, cfg.quickT)) {
-		return
-	}
 	if o.Cover {
-		// satisfiability with quantified axioms is often undecided; check the quantifier-free part
+		// vacuity guards: the quantifier-free part decides almost all of them in milliseconds (an unsat there is
+		// an unsat of the whole; a sat there is reported as such)
 		var sb strings.Builder
 		for _, l := range strings.Split(script, "\n") {
 			if strings.HasPrefix(l, "(assert") && (strings.Contains(l, "(forall ") || strings.Contains(l, "(exists ")) {
@@ -185,6 +183,9 @@ func discharge(u *Unit, o *Obligation, cfg *solveCfg, idx int) {
 			return
 		}
 	}
+	if record(runSolver("z3-new", file, cfg.quickT)) {
+		return
+	}
 	ch := make(chan solveResult, 2)
 	for _, s := range []string{"z3", "cvc5"} {
 		go func(s string) { ch <- runSolver(s, file, cfg.slowT) }(s)
@@ -200,6 +201,9 @@ func discharge(u *Unit, o *Obligation, cfg *solveCfg, idx int) {
 	// undecided (quantifiers): look for a candidate counterexample of the quantifier-free part; it only
 	// counts if the replay confirms it on the real code
 	qfs := qfPart(script)
+	if o.candText != "" {
+		qfs = o.candText
+	}
 	qf := file + ".qf.smt2"
 	os.WriteFile(qf, []byte(qfs), 0o644)
 	r := runSolver("z3-new", qf, cfg.quickT)
